@@ -241,12 +241,9 @@ Definition clean_msgb (m : msg) : bool :=
   forallb (fun l => clean_nameb (cstr (l_file l)) && clean_nameb (cstr (l_orig l))) (m_stack m) &&
   forallb (fun s => clean_nameb (cstr s)) (symbols_of (m_symbols m)).
 
-(* what the schema check needs of a message: none of the attributes that
-   cppcheck-errors.rng does not know *)
-Definition rng_plain (m : msg) : Prop :=
-  m_guideline m = [] /\ m_classification m = [] /\ m_remark m = [] /\
-  Forall (fun l => l_orig l = l_file l) (m_stack m) /\
-  In (m_sev m) [SError; SWarning; SStyle; SPerformance; SPortability; SInformation].
+(* what the schema check needs of a message: a severity that can reach toXML
+   (StdLogger::reportErr drops Severity::internal; Severity::none is not a reportable severity) *)
+Definition reportable (m : msg) : Prop := m_sev m <> SNone /\ m_sev m <> SInternal.
 
 (* ------------------------------------------------------------------ *)
 (* JSON string grammar (RFC 8259 section 7) at byte level: the bytes between the quotes
